@@ -635,6 +635,7 @@ func parseGen(tier string, r *rng, emit func(string)) {
 	for i := 0; i < 3000; i++ {
 		src(mutate(r, genProgram(r, 1+r.intn(3))))
 	}
+	parseGapFamilies(tier, r, emit) // formatfam2.go
 }
 
 var mutBytes = []byte{0, 0x80, 0xff, 0xc3, '"', '`', '\\', '\n', ' ', '(', ')', '{', '}', '[', ']', '/', '*', '=', '>', ',', ';', ':', '.', '-', '+', 'e', '0', 'x', '_', '@'}
@@ -725,4 +726,5 @@ func parse15Gen(tier string, r *rng, emit func(string)) {
 		}
 		emitCuts(string(data), max)
 	}
+	parse15GapFamilies(tier, r, emitCuts, emit) // parse15fam2.go
 }
